@@ -283,6 +283,11 @@ func TestC11(t *testing.T) {
 		fc := run.Check(fmt.Sprintf("collect-%d", done), want, 1, func(rt *rapid.T, fail ev.FailFunc) {
 			o := lexgen.Opts{MaxModes: 2, ModeActs: true, Frags: true, Macros: true, ShuffleAct: true}
 			o.Nullable = rapid.IntRange(0, 3).Draw(rt, "nullable") == 0
+			// the accounting invariants do not depend on which match a non-greedy rule picks
+			o.NonGreedy = rapid.IntRange(0, 2).Draw(rt, "nongreedy") == 0
+			if o.NonGreedy && rapid.Bool().Draw(rt, "ng+nullable") {
+				o.Nullable = true
+			}
 			s := lexgen.GenSpec(rt, o)
 			cases = append(cases, &Case{S: s, Inputs: lexgen.Texts(rt, s, 40)})
 		})
